@@ -21,9 +21,10 @@ def main(tier):
             "Not decided: longest-match results on every string; name/number classification beyond table equality."))
     r = cx.repo
     chk.run("R-TOKTABLE", K.toktable, r, floor=65)
+    chk.run("R-NAMEREGEX", K.nameregex, r, floor=3)
     chk.run("R-TOKSKIP", K.tokskip, r, floor=60)
     chk.run("R-TOKTIE", K.toktie, r, floor=3)
     chk.run("R-TOKPOS", K.tokpos, r, floor=4)
     chk.run("R-INDENT", K.indent, r, floor=10)
-    chk.run("R-LINESPLIT", K.linesplit, r, floor=2)
+    chk.run("R-LINESPLIT", K.linesplit, r, side="tokenizer", floor=1)
     return chk.finish()
